@@ -41,7 +41,6 @@ struct c08_snap { const DBusAuthStateData *state; const DBusAuthMechanismHandler
 static struct c08_snap c08_take (DBusAuth *a)
 { struct c08_snap s; s.state = a->state; s.mech = a->mech; s.failures = SRV (a)->failures; s.out_len = SLEN (&a->outgoing); s.out_lines = g_out_lines; s.in_len = SLEN (&a->incoming);
   s.mech_ok = g_mech_ok; s.identity_len = SLEN (&a->identity); s.authz = *a->authorized_identity; s.desired = *a->desired_identity; s.cookie_id = a->cookie_id; s.fdneg = a->unix_fd_negotiated; return s; }
-#define CRED_EQ(x, y) ((x)->unix_uid == (y)->unix_uid && (x)->pid == (y)->pid && (x)->gids == (y)->gids && (x)->sid == (y)->sid && (x)->label == (y)->label && (x)->adt == (y)->adt)
 
 /* ---- building an arbitrary conversation object that satisfies AUTH_INV ---- */
 static char *c08_allowed[4];
